@@ -1141,6 +1141,23 @@ func main() {
 
 	writeIfChanged(filepath.Join(outDir, "Tables.lean"), T.Bytes())
 	writeIfChanged(filepath.Join(outDir, "Shape.lean"), S.Bytes())
+	// the code itself, as syntax trees (astdump.go)
+	os.MkdirAll(filepath.Join(outDir, "Ast"), 0755)
+	for _, a := range [][3]string{
+		{"x509", "X509", "x509"},
+		{"signature/internal/base", "Base", "base"},
+		{"signature", "Signature", "signature"},
+		{"revocation/internal/crl", "Crl", "crl"},
+		{"revocation/internal/ocsp", "Ocsp", "ocsp"},
+		{"revocation/internal/x509util", "X509util", "x509util"},
+		{"revocation/crl", "Fetcher", "fetcher"},
+		{"revocation/result", "Result", "result"},
+		{"revocation", "Revocation", "revocation"},
+		{"internal/timestamp", "Timestamp", "timestamp"},
+		{"internal/algorithm", "Algorithm", "algorithm"},
+	} {
+		dumpPackage(outDir, a[0], a[1], a[2])
+	}
 }
 
 func constOf(p *packages.Package, name string) int64 {
